@@ -43,6 +43,10 @@ func c03Pool(thorough bool) []any {
 	// a quantifier that binds one name to index AND value: an error only when it is reached over a non-empty collection
 	pool = append(pool, &Quant{All: false, Sel: a, Mode: BindBoth, Idx: "k", Val: "k", Body: m([]string{"b"}, OpEq, "1")},
 		&Quant{All: true, Sel: aa, Mode: BindDefault, Val: "x", Body: &Quant{All: false, Sel: []string{"x"}, Mode: BindBoth, Idx: "j", Val: "j", Body: m(a, OpEmpty, "")}})
+	// a quantifier whose placeholder is called like a top-level key of the data, next to an atom on that key: after the quantifier has
+	// finished (early exit included) the name means the datum's key again
+	pool = append(pool, &Quant{All: false, Sel: a, Mode: BindDefault, Val: "b", Body: m([]string{"b"}, OpEq, "1")}, &Quant{All: true, Sel: a, Mode: BindBoth, Idx: "zz", Val: "b", Body: m([]string{"b"}, OpNe, "1")},
+		m([]string{"b"}, OpEq, "1"), m([]string{"b"}, OpEq, "x"))
 	// different paths with the same rendered text (see universe.go): each must keep its own value inside one expression
 	pool = append(pool, m([]string{"a", "a.a"}, OpEq, "1"), m([]string{"a", "a/a"}, OpEq, "2"), m([]string{"a", "a", "a"}, OpEq, "3"), m([]string{"a", "a", "a"}, OpEq, "1"))
 	if thorough {
@@ -77,7 +81,7 @@ func c03Docs(thorough bool) []*Node {
 		mp(str("a"), one), mp(str("a"), str("a")), mp(str("a"), str("")), mp(str("a"), str("aaa")),
 		mp(str("a"), mp(str("a"), one)), mp(str("a"), mp(str("a"), str("a"))), mp(str("a"), mp()),
 		mp(str("a"), NSlice(TAny, one, one)), mp(str("a"), NSlice(TAny, one, str("a"))), mp(str("a"), NSlice(TAny)), mp(str("a"), NSlice(TAny, str("a"))),
-		mp(str("a"), NNilAny()), mp(str("b"), one), mp(str("a"), NBool(false, true)), mp(str("a"), NFloat(KFloat64, false, 1.5)),
+		mp(str("a"), NNilAny()), mp(str("b"), one), mp(str("a"), NSlice(TAny, one, str("q")), str("b"), str("x")), mp(str("a"), NSlice(TAny, str("q")), str("b"), one), mp(str("a"), NBool(false, true)), mp(str("a"), NFloat(KFloat64, false, 1.5)),
 		mp(str("a"), mp(str("c"), one)), mp(str("a"), mp(str("a"), one, str("c"), str("a"))),
 		mp(str("a"), mp(str("a.a"), one, str("a/a"), NInt(KInt, false, 2), str("a"), mp(str("a"), NInt(KInt, false, 3)))),
 		mp(str("a"), mp(str("a.a"), NInt(KInt, false, 3), str("a"), mp(str("a"), one))),
